@@ -1,5 +1,6 @@
 import Gimli.Drv.Util
 import Gimli.Model.Attr
+import Gimli.Drv.C02
 /-! Line-protocol operations for C03 (attribute forms; skipping equals reading).
 `harness/src/prop/c03.rs` answers the same lines from the real crate.
 
@@ -10,6 +11,8 @@ import Gimli.Model.Attr
 * `attr-skip <endian> <addr_size> <32|64> <version> <name:form[:implicit],…|-> <hex> …`
   → `ok read=<consumed|ErrName> skip=<consumed|ErrName>`
 * `attr-size <addr_size> <32|64> <version> <form>` → `ok <n>` | `ok none`
+* `attr-unit <endian> <info|types> <abbrev hex> <section hex> …` → `ok <offset>:<name>/<form>/<raw>/<normalised>,…;… <ok|ErrName>`:
+  every attribute of every entry of the first unit (`<offset>:-` for an entry without attributes or a null entry)
 -/
 namespace Gimli.Drv.C03
 open Gimli Gimli.Drv Gimli.Attr
@@ -70,6 +73,22 @@ def handle (op : String) (args : List String) : Option String :=
     let bs ← parseHex h
     pure ("ok read=" ++ posS bs.length (·.2) (readAttributes enc specs bs)
       ++ " skip=" ++ posS bs.length id (skipAttributes enc specs bs))
+  | "attr-unit", e :: s :: ah :: h :: _ => do
+    let e ← endian? e; let s ← C02.sect? s; let abb ← parseHex ah; let sec ← parseHex h
+    let r : Out String := do
+      let (hd, ctx) ← C02.setup e s abb sec
+      let raw ← hd.entriesRaw hd.rootOffset
+      let t := Die.rawAll ctx (sec.length + 2) raw
+      let entryS (en : Die.Entry) : String :=
+        toString en.offset ++ ":" ++
+          (if en.attrs.isEmpty then "-" else ",".intercalate (en.attrs.map fun (sp, v) =>
+            toString sp.name ++ "/" ++ toString sp.form.code ++ "/" ++ valueS v ++ "/" ++ valueS (normalise sp.name v)))
+      pure ("ok " ++ C02.joinS (t.1.map entryS) ++ " " ++ C02.endS t.2)
+    pure (match r with
+      | .ok s => s
+      | .err e => "err " ++ e.name
+      | .panic w => "panic " ++ w
+      | .diverge => "diverge")
   | "attr-size", [a, f, v, form] => do
     let enc ← enc? "le" a f v
     let form ← form.toNat?
